@@ -2,6 +2,7 @@
 
 use crate::engine::{CaseInfo, CaseResult, Ctx, Failure, Property, Src, Tier};
 use crate::ensure;
+use crate::probes::agent::{Phase, Stage, Target, World, PHASES, TARGETS};
 use crate::probes::{default_manager, Mgr, ProbeEffectBuilder, ProbeKind, ProbeSoundData, Signal};
 use crate::scene::gen::{gen_easing, gen_quat};
 use glam::{Quat, Vec3};
@@ -221,7 +222,7 @@ impl Property for C15 {
 		"C15"
 	}
 	fn rule(&self) -> &'static str {
-		"each case generates a listener (position, unit-quaternion orientation), a spatial track (emitter coincident with the listener, on a listener axis, inside the distance range, or anywhere up to 1e5 units away; distances min < max; attenuation easing or none; strength in [0,1]) and a DC input (equal or unequal stereo), renders the steady-state output frame through the manager and checks it against the documented model level = attenuation(distance) x ear gains (f64, tolerance scaled with coordinate magnitude) and one of the relations between renders from fresh managers: attenuation 1 inside the minimum distance, 0 at or beyond the maximum, non-increasing along a ray; ear gains within [1-strength, 1]; emitter on the listener's right gives right >= left; mirroring the emitter through the listener's median plane swaps the channels; a rigid motion of listener and emitter together leaves the output unchanged, and so does every frame of the same translation carried out while playing, with listener and emitter positions both linked to one tweener modulator; strength 0 passes stereo unpanned; a dropped listener (or one whose slot has been reused) silences the track exactly from the next callback; a FromListenerDistance parameter (on the track, on a non-spatial child and on a non-spatial grandchild) equals the mapping of the true distance; position / orientation tweens end at the static result, and the same move commanded with instant tweens before the first callback is complete from the second callback on; nested spatial tracks use their own listener and position. Non-trivial = emitter off the listener's axes and strictly between min and max; distinct = distinct decoded choices."
+		"each case generates a listener (position, unit-quaternion orientation), a spatial track (emitter coincident with the listener, on a listener axis, inside the distance range, or anywhere up to 1e5 units away; distances min < max; attenuation easing or none; strength in [0,1]) and a DC input (equal or unequal stereo), renders the steady-state output frame through the manager and checks it against the documented model level = attenuation(distance) x ear gains (f64, tolerance scaled with coordinate magnitude) and one of the relations between renders from fresh managers: attenuation 1 inside the minimum distance, 0 at or beyond the maximum, non-increasing along a ray; ear gains within [1-strength, 1]; emitter on the listener's right gives right >= left; mirroring the emitter through the listener's median plane swaps the channels; a rigid motion of listener and emitter together leaves the output unchanged, and so does every frame of the same translation carried out while playing, with listener and emitter positions both linked to one tweener modulator; strength 0 passes stereo unpanned; a dropped listener (or one whose slot has been reused) silences the track exactly from the next callback, while a listener, a spatial track on it and a sound created together at any of six moments of a callback (before it; from on_start_processing or process of a custom sound on a sub-track or the main track; between the renderer's two halves) give the static result whenever the track mixes signal; a FromListenerDistance parameter (on the track, on a non-spatial child and on a non-spatial grandchild) equals the mapping of the true distance; position / orientation tweens end at the static result, and the same move commanded with instant tweens before the first callback is complete from the second callback on; nested spatial tracks use their own listener and position. Non-trivial = emitter off the listener's axes and strictly between min and max; distinct = distinct decoded choices."
 	}
 	fn assumptions(&self) -> Vec<String> {
 		vec![
@@ -405,6 +406,54 @@ impl Property for C15 {
 					let after = last_frame(&mut mgr, g.ibs)?;
 					ensure!(after == (0.0, 0.0), "silent-without-listener", "track audible after its listener was dropped: {after:?}; {g:?}");
 				}
+				// ... and a track whose listener exists is never silenced for want of it: listener,
+				// spatial track and sound are created at one of the moments of a callback at which a
+				// second thread's calls can land; whenever the track mixes signal (seen by a probe
+				// effect on it) its output is the static result
+				let phase = PHASES[src.index(PHASES.len())];
+				let target = TARGETS[src.index(TARGETS.len())];
+				let mut stage = Stage::new(48000, g.ibs, src.bool())?;
+				let gg = g.clone();
+				let frames = g.ibs * 3;
+				let mut keep = None;
+				for k in 0..4 {
+					let cb = if k == 0 {
+						let (r, cb) = stage.callback(frames, phase, move |w: &mut World| -> Result<_, &'static str> {
+							let listener = w.mgr.add_listener(v(gg.listener_pos), q(gg.listener_rot)).map_err(|_| "listener limit")?;
+							let mut b = SpatialTrackBuilder::new().distances((gg.min, gg.max)).attenuation_function(gg.attenuation).spatialization_strength(gg.strength);
+							let log = b.add_effect(ProbeEffectBuilder::new(ProbeKind::Pass));
+							let mut track = match target {
+								Target::Main => w.mgr.add_spatial_sub_track(&listener, v(gg.emitter), b),
+								Target::AgentTrack => w.agent_track.add_spatial_sub_track(&listener, v(gg.emitter), b),
+								Target::OtherTrack => w.other_track.add_spatial_sub_track(&listener, v(gg.emitter), b),
+							}
+							.map_err(|_| "track limit")?;
+							track.play(ProbeSoundData::new(Signal::Dc(gg.input.0, gg.input.1), None)).map_err(|_| "sound limit")?;
+							Ok((listener, track, log))
+						})?;
+						keep = Some(r.map_err(|e| Failure::simple("setup", e))?);
+						cb
+					} else {
+						stage.callback(frames, Phase::Before, |_| ())?.1
+					};
+					let log = &keep.as_ref().unwrap().2;
+					let calls = log.take_calls();
+					// the track's process calls of this callback are its last `calls.len()` internal buffers
+					let buffers = frames / g.ibs;
+					ensure!(calls.len() <= buffers, "setup", "more process calls than internal buffers");
+					for (j, r) in calls.iter().enumerate() {
+						if r.first_in.left == 0.0 && r.first_in.right == 0.0 {
+							continue;
+						}
+						let f = cb.frame((buffers - calls.len() + j) * g.ibs, 2);
+						ensure!(
+							close(f.0, out.0 as f64, tol * 2.0) && close(f.1, out.1 as f64, tol * 2.0),
+							"audible-while-its-listener-exists",
+							"listener, spatial track (on {target:?}) and sound were created {phase:?} of callback 0; in callback {k} the track mixes signal but the output frame is {f:?}, a scene built between callbacks gives {out:?}; {g:?}"
+						);
+					}
+				}
+				drop(keep);
 			}
 			8 => {
 				class = "listener-distance-parameter";
